@@ -91,6 +91,7 @@ def install(e):
     _install_base(e)
     install_send(e)
     install_send2(e)
+    install_lock_discipline(e)
 
 
 def _install_base(e):
@@ -405,3 +406,24 @@ def install_send2(e):
                    modifies=lambda c, a: MOD_TX + [(a["self"], "connected")], havoc=sc_havoc, props=("C01", "C08"),
                    doc="out-of-range status: ValueError before anything is written; else connected' = False and one close frame "
                        "with payload be16(status) ++ reason"))
+
+
+def install_lock_discipline(e):
+    """Lock-invariant obligations (DESIGN 5 C12).  `lock` owns the wire: on a normal release inside send_frame every byte
+    of the frame in progress must have been accepted (the wire is a concatenation of whole frames); `frame_buffer.lock`
+    owns the frame in progress: on a normal release inside recv_frame the stage flags are cleared."""
+    def release(c, m, node, exceptional):
+        if exceptional or not c.frames:
+            return
+        fr = c.frames[-1]
+        if fr.qual == "WebSocket.send_frame" and m.attrs.get("name") == "lock":
+            if "data" not in fr.locals:
+                from pyvc.ctx import Undecided
+                raise Undecided("send_frame no longer has a local `data` (lock invariant is stated over it)")
+            c.prove("lock.release.I_send(no partial frame on the wire)", slen(z(fr.locals["data"])) == 0, node)
+        if fr.qual == "frame_buffer.recv_frame":
+            fb = fr.locals.get("self")
+            if fb is not None:
+                c.prove("lock.release.I_frame(stage cleared)", z3.And(zn(c.getf(fb, "header")), zn(c.getf(fb, "length")),
+                                                                      zn(c.getf(fb, "mask_value"))), node)
+    e.lock_hooks["release"] = release
